@@ -245,7 +245,13 @@ def _d0_consumers(ctx):
                    "ports: ... cycles / len(ports)`; the data schema of C15 must be re-derived")
     ctx.node_ok("D0", f, f.node, "average_port_pressure: for cycles, ports in uops: for p in ports: index(p), cycles/len(ports)")
     sel = pm.find("M_u = M_pp[M_opt]", f.node)
-    ctx.check(bool(sel) and any(pol and C.is_call_to(e, "isinstance") for n, _ in sel for e, pol in C.facts_at(n)),
+    sel_ok = bool(sel) and any(pol and C.is_call_to(e, "isinstance") for n, _ in sel for e, pol in C.facts_at(n))
+    if not sel_ok:
+        # the selection as the isinstance arm of a conditional expression (anywhere: assignment or loop iterable)
+        for n in ast.walk(f.node):
+            if isinstance(n, ast.IfExp) and C.is_call_to(n.test, "isinstance") and pm.match("M_pp[M_opt]", n.body) is not None:
+                sel_ok = True
+    ctx.check(sel_ok,
               "D0", "alternatives map is indexed by the option number", f.where(),
               "average_port_pressure no longer selects an alternative by subscripting the map with the option",
               f.qname, "option selection")
